@@ -51,6 +51,8 @@ CONSTANTS NC,          \* number of conditions (3 or 4 in the exhaustive runs)
           Affines,     \* set of <<c, d>>, c > 0 : x |-> c*x + d
           Configs,     \* point configurations (sequences of NC points) for Bures
           MoveConfigs, \* moves of the Bures runs are explored from these configurations
+          Degenerate,  \* TRUE: exactly ONE vector of the two stacks is degenerate for the method
+                       \* (entries that involve it are not demanded), FALSE: none is
           EmitMod,     \* emit one "out" state in EmitMod
           MoveEmitMod  \* emit one "moved" state in MoveEmitMod
 
@@ -170,6 +172,7 @@ AdmVec(m, x) == CASE m \in {"cosine", "cosine_cov", "bures", "bures_metric"} -> 
                   [] m \in {"corr", "corr_cov", "spearman", "kendall"} -> ~IsConst(x)
                   [] OTHER -> TRUE
 AdmStack(m, A) == \A i \in 1..Len(A) : AdmVec(m, A[i])
+NDeg(m, A) == Cardinality({i \in 1..Len(A) : ~AdmVec(m, A[i])})
 
 (* ---------------- moves -------------------------------------------------- *)
 Perms(n) == {p \in [1..n -> 1..n] : Range(p) = 1..n}
@@ -198,7 +201,8 @@ Init == /\ method \in Methods
                 /\ b = [i \in 1..Len(pb) |-> RdmOf(pb[i])]
            ELSE /\ pa = <<>> /\ pb = <<>>
                 /\ \E sh \in Shapes : a \in [1..sh[1] -> Vecs] /\ b \in [1..sh[2] -> VecsB]
-        /\ AdmStack(method, a) /\ AdmStack(method, b)
+        /\ IF Degenerate THEN NDeg(method, a) + NDeg(method, b) = 1
+           ELSE AdmStack(method, a) /\ AdmStack(method, b)
         /\ sid \in (IF method \in CovMethods THEN 1..Len(Sigmas) ELSE {0})
         /\ sigma = IF sid = 0 THEN NoSigma ELSE Sigmas[sid]
         /\ pc = "in" /\ res = <<>> /\ mv = NoMove
@@ -208,7 +212,7 @@ Compute == /\ pc = "in"
            /\ pc' = "out"
            /\ UNCHANGED <<a, b, pa, pb, method, sid, sigma, mv>>
 
-Movable == /\ pc = "out"
+Movable == /\ pc = "out" /\ ~Degenerate
            /\ IF method \in BuresMethods
               THEN (\A i \in 1..Len(pa) : pa[i] \in MoveConfigs) /\ (\A j \in 1..Len(pb) : pb[j] \in MoveConfigs)
               ELSE (\A i \in 1..Len(a) : a[i] \in MoveVecs) /\ (\A j \in 1..Len(b) : b[j] \in MoveVecs)
@@ -245,14 +249,24 @@ Spec == Init /\ [][Next]_vars
 IsCov == method \in CovMethods
 Out == pc = "out"
 Entries == {ij \in (1..Len(a)) \X (1..Len(b)) : TRUE}
+\* an entry is demanded when both of its RDMs are non-degenerate for the method (always, unless Degenerate)
+Demanded == {ij \in Entries : AdmVec(method, a[ij[1]]) /\ AdmVec(method, b[ij[2]])}
 
 \* |value| <= 1 : Cauchy-Schwarz on the statistics (for Bures: fidelity^2 <= trA * trB)
 CauchySchwarz == (Out /\ ~IsCov) =>
-   \A ij \in Entries : LET s == res[ij[1]][ij[2]] IN
+   \A ij \in Demanded : LET s == res[ij[1]][ij[2]] IN
       /\ s.aa > 0 /\ s.bb > 0
       /\ IF method \in {"tau-a", "rho-a"} THEN Abs(s.ab) <= s.aa       \* aa = bb, avoids the product
          ELSE IF method \in BuresMethods THEN s.ab >= 0 /\ Rat(s.ab, s.aa)[1] <= s.bb * Rat(s.ab, s.aa)[2]
          ELSE RatMul(Rat(s.ab, s.aa), Rat(s.ab, s.bb))[1] <= RatMul(Rat(s.ab, s.aa), Rat(s.ab, s.bb))[2]
+
+\* the entries that are not demanded are exactly those with a vanishing norm statistic (this is how
+\* the harness recognises them in an emitted vector)
+UndemandedIsZeroNorm == Out => \A ij \in Entries :
+   LET s == res[ij[1]][ij[2]]
+       zero == IF IsCov THEN (\A k \in DOMAIN s.u : s.u[k] = 0) \/ (\A k \in DOMAIN s.v : s.v[k] = 0)
+               ELSE s.aa = 0 \/ s.bb = 0 IN
+   zero <=> ij \notin Demanded
 
 \* symmetric in the two arguments: swapping the RDMs swaps aa and bb and keeps ab
 StatOfPair(x, y, px, py) == IF method \in BuresMethods THEN BuresStat(CenPts(px), CenPts(py))
@@ -263,7 +277,7 @@ Symmetric == Out => \A ij \in Entries :
    StatOfPair(b[j], a[i], IF pb = <<>> THEN <<>> ELSE pb[j], IF pa = <<>> THEN <<>> ELSE pa[i]) = Flip(res[i][j])
 
 \* an RDM with itself: value 1 (ab = aa = bb); tau-a and rho-a reach 1 exactly when there are no ties
-SelfOne == Out => \A i \in 1..Len(a) :
+SelfOne == Out => \A i \in {k \in 1..Len(a) : AdmVec(method, a[k])} :
    LET s == StatOfPair(a[i], a[i], IF pa = <<>> THEN <<>> ELSE pa[i], IF pa = <<>> THEN <<>> ELSE pa[i]) IN
    IF IsCov THEN s.u = s.v
    ELSE IF method \in BuresMethods THEN s.aa = s.bb /\ s.ab = s.aa * s.aa   \* fidelity(A,A) = tr A
